@@ -4,8 +4,10 @@ package gtree
 
 import (
 	"context"
+	"io"
 	"strings"
 	"sync"
+	"sync/atomic"
 	"time"
 )
 
@@ -102,7 +104,51 @@ func c11StressOne(op int, roots int, id string) {
 	verifAssert(verifQuiesce() == 0, id)
 }
 
+// c11SlowReader: an endless-looking input that arrives row by row; it cancels the context itself from inside the
+// 40th Read and counts how often it is read afterwards.
+type c11SlowReader struct {
+	cancel context.CancelFunc
+	n      int
+	after  int64
+	done   bool
+}
+
+func (r *c11SlowReader) Read(p []byte) (int, error) {
+	r.n++
+	if r.done {
+		atomic.AddInt64(&r.after, 1)
+	}
+	if r.n == 40 {
+		r.done = true
+		r.cancel()
+	}
+	if r.n > 4000 {
+		return 0, io.EOF
+	}
+	time.Sleep(200 * time.Microsecond)
+	row := "  - c\n"
+	if r.n == 1 {
+		row = "# h\n"
+	}
+	return copy(p, row), nil
+}
+
+// c11StressLongBlock: one heading and an input that keeps delivering list rows (a single block for the splitter);
+// the context is cancelled from inside a Read; after the call has returned the input must not be consumed any further
+func c11StressLongBlock() {
+	ctx, cancel := context.WithCancel(context.Background())
+	defer cancel()
+	rd := &c11SlowReader{cancel: cancel}
+	err := OutputFromMarkdown(newVerifWriter(), rd, WithMassive(ctx))
+	verifAssert(err != nil, "C11.long.ctxerr.only")
+	at := atomic.LoadInt64(&rd.after)
+	time.Sleep(150 * time.Millisecond)
+	verifAssert(atomic.LoadInt64(&rd.after)-at <= 1, "C11.stops/reader")
+	verifAssert(verifQuiesce() == 0, "C11.noleak/long")
+}
+
 func VerifC11Stress() {
+	c11StressLongBlock()
 	for _, roots := range []int{1, 13, 31, 64} {
 		c11StressOne(0, roots, "C11.noleak/cancel")
 		c11StressOne(1, roots, "C11.noleak/cancel")
